@@ -909,12 +909,12 @@ class PositionArray(PosBase):
                 attr_cls = getattr(sys.modules[cls_module], cls_name)
                 arg = attr_cls._read(h5_group[a], memo)
                 pos_args.update({a: arg})
-                memo[f"{h5_group.attrs['fieldname']}.{a}"] = arg
+                memo[f"{h5_group.name[1:].replace('/', '.')}.{a}"] = arg
 
         val = h5_group[h5_group.attrs["fieldname"]][...]
 
         pos = cls.create(val, system=system, ellipsoid=ellipsoid_, **pos_args)
-        memo[f"{h5_group.attrs['fieldname']}"] = pos
+        memo[h5_group.name[1:].replace("/", ".")] = pos
         return pos
 
     def _write(self, h5_group, memo):
@@ -936,10 +936,10 @@ class PositionArray(PosBase):
                 h5_sub_group = h5_group.create_group(a)
                 h5_sub_group.attrs["fieldname"] = a
                 h5_sub_group.attrs["__class__"] = f"{attr.__class__.__module__}.{attr.__class__.__name__}"
-                memo[id(attr)] = f"{h5_group.attrs['fieldname']}.{a}"
+                memo[id(attr)] = f"{h5_group.name[1:].replace('/', '.')}.{a}"
                 attr._write(h5_sub_group, memo)  # Potential recursive call
 
-        memo[id(self)] = h5_group.attrs["fieldname"]
+        memo[id(self)] = h5_group.name[1:].replace("/", ".")
 
 
 class PositionDeltaArray(PosBase):
@@ -1265,12 +1265,12 @@ class PositionDeltaArray(PosBase):
                 attr_cls = getattr(sys.modules[cls_module], cls_name)
                 arg = attr_cls._read(h5_group[a], memo)
                 delta_args.update({a: arg})
-                memo[f"{h5_group.attrs['fieldname']}.{a}"] = arg
+                memo[f"{h5_group.name[1:].replace('/', '.')}.{a}"] = arg
 
         val = h5_group[h5_group.attrs["fieldname"]][...]
 
         posdelta = cls.create(val, system=system, **delta_args)
-        memo[f"{h5_group.attrs['fieldname']}"] = posdelta
+        memo[h5_group.name[1:].replace("/", ".")] = posdelta
         return posdelta
 
     def _write(self, h5_group, memo):
@@ -1291,10 +1291,10 @@ class PositionDeltaArray(PosBase):
                 h5_sub_group = h5_group.create_group(a)
                 h5_sub_group.attrs["fieldname"] = a
                 h5_sub_group.attrs["__class__"] = f"{attr.__class__.__module__}.{attr.__class__.__name__}"
-                memo[id(attr)] = f"{h5_group.attrs['fieldname']}.{a}"
+                memo[id(attr)] = f"{h5_group.name[1:].replace('/', '.')}.{a}"
                 attr._write(h5_sub_group, memo)  # Potential recursive call
 
-        memo[id(self)] = h5_group.attrs["fieldname"]
+        memo[id(self)] = h5_group.name[1:].replace("/", ".")
 
 
 class VelocityArray(PosBase):
@@ -1646,11 +1646,11 @@ class PosVelArray(PositionArray):
                 attr_cls = getattr(sys.modules[cls_module], cls_name)
                 arg = attr_cls._read(h5_group[a], memo)
                 pos_args.update({a: arg})
-                memo[f"{h5_group.attrs['fieldname']}.{a}"] = arg
+                memo[f"{h5_group.name[1:].replace('/', '.')}.{a}"] = arg
 
         val = h5_group[h5_group.attrs["fieldname"]][...]
         posvel = cls.create(val, system=system, ellipsoid=ellipsoid_, **pos_args)
-        memo[f"{h5_group.attrs['fieldname']}"] = posvel
+        memo[h5_group.name[1:].replace("/", ".")] = posvel
         return posvel
 
     def _write(self, h5_group, memo):
@@ -1672,10 +1672,10 @@ class PosVelArray(PositionArray):
                 h5_sub_group = h5_group.create_group(a)
                 h5_sub_group.attrs["fieldname"] = a
                 h5_sub_group.attrs["__class__"] = f"{attr.__class__.__module__}.{attr.__class__.__name__}"
-                memo[id(attr)] = f"{h5_group.attrs['fieldname']}.{a}"
+                memo[id(attr)] = f"{h5_group.name[1:].replace('/', '.')}.{a}"
                 attr._write(h5_sub_group, memo)  # Potential recursive call
 
-        memo[id(self)] = h5_group.attrs["fieldname"]
+        memo[id(self)] = h5_group.name[1:].replace("/", ".")
 
 
 #
@@ -1785,12 +1785,12 @@ class PosVelDeltaArray(PositionDeltaArray):
                 attr_cls = getattr(sys.modules[cls_module], cls_name)
                 arg = attr_cls._read(h5_group[a], memo)
                 delta_args.update({a: arg})
-                memo[f"{h5_group.attrs['fieldname']}.{a}"] = arg
+                memo[f"{h5_group.name[1:].replace('/', '.')}.{a}"] = arg
 
         val = h5_group[h5_group.attrs["fieldname"]][...]
 
         posveldelta = cls.create(val, system=system, **delta_args)
-        memo[f"{h5_group.attrs['fieldname']}"] = posveldelta
+        memo[h5_group.name[1:].replace("/", ".")] = posveldelta
         return posveldelta
 
     def _write(self, h5_group, memo):
@@ -1811,5 +1811,5 @@ class PosVelDeltaArray(PositionDeltaArray):
                 h5_sub_group = h5_group.create_group(a)
                 h5_sub_group.attrs["fieldname"] = a
                 h5_sub_group.attrs["__class__"] = f"{attr.__class__.__module__}.{attr.__class__.__name__}"
-                memo[id(attr)] = f"{h5_group.attrs['fieldname']}.{a}"
+                memo[id(attr)] = f"{h5_group.name[1:].replace('/', '.')}.{a}"
                 attr._write(h5_sub_group, memo)  # Potential recursive call
